@@ -4,6 +4,8 @@ CONSTANTS
   Hosts = {"h1", "h2"}
   PortClasses = {"std", "alt"}
   Statuses = {302, 307}
+  QKinds = {"plain", "amp", "plus", "hash", "pct"}
+  StartKinds = {"none", "start"}
   MaxHops = 3
 INVARIANT WrappedIffHttps
 INVARIANT ChainDelivered
